@@ -443,6 +443,9 @@ func (e *Explorer) worker() {
 					if st.Err != nil {
 						so.Rejected++
 						oc = "rejected"
+						if os.Getenv("VERIF_REJECT_REASONS") != "" { // debugging aid: why a transaction was rejected
+							oc = fmt.Sprintf("rejected:%.160s", st.Err.Error())
+						}
 					} else if st.Txn.Status == transaction.TxnError {
 						oc = "charged-failure"
 					}
